@@ -1644,3 +1644,29 @@ def rule_initial_tallies(ctx: Ctx, clause: str, fields_by_class: Dict[str, List[
     if n < min_sites:
         ctx.soft_fail(f"{rule}: only {n} (construction site, tally) pairs found")
     return n
+
+
+# ------------------------------------------------------------------------------------------ who may put an entity into the simulation
+def rule_entity_entry(ctx: Ctx, clause: str, why_text: str):
+    """Entities enter a simulation state only at initialisation and, for requests, through the two request-update functions. Anything else
+    that adds an entity in mid-run (a request put back by a vehicle, a copy re-inserted) re-creates something that already had its one
+    entry — with whatever the copy still records (an assignment, a fare already paid)."""
+    SSOPS_ = "nrel/hive/state/simulation_state/simulation_state_ops.py"
+
+    def ok(s: Site):
+        f = s.func
+        if f is None:
+            return None
+        if f.relpath.startswith((PKG + "/initialization/", PKG + "/resources/", PKG + "/runner/", PKG + "/app/")):
+            return "initialisation"
+        if f.relpath == SSOPS_:
+            return "the state operations' own wrappers"
+        if f.relpath.endswith(("update_requests_from_file.py", "update_requests_sampling.py")):
+            return "request update function"
+        return None
+    n = 0
+    for name in ("add_request_safe", "add_request", "add_entities_safe", "add_entities", "add_entity_safe", "add_entity"):
+        n += rule_callers(ctx, clause, name, ok, why_text, 0, refs=True)
+    if n < 6:
+        ctx.soft_fail(f"entity-entry census saw only {n} call sites")
+    return n
